@@ -438,19 +438,26 @@ func blsFamilies(rng *rand.Rand) []family {
 		b := append([]byte{}, infC...)
 		b[95] = 1
 		cl["bad-flags"] = append(cl["bad-flags"], b)
+		preG2 := append([][]byte{nil}, cl["valid"][:6]...) // decode into a fresh object, and into objects that already hold a point
 		try := func(b []byte) (bool, bool, bool) {
-			var p bls12381.G2
-			if p.SetBytes(b) != nil {
-				return false, false, false
+			for _, held := range preG2 {
+				var p bls12381.G2
+				if held != nil {
+					_ = p.SetBytes(held)
+				}
+				if p.SetBytes(b) != nil {
+					continue
+				}
+				re := p.Bytes()
+				if len(b) == 96 {
+					re = p.BytesCompressed()
+				}
+				var t bls12381.G2
+				t.ScalarMult(rm1, &p)
+				t.Add(&t, &p)
+				return true, bytes.Equal(re, b), t.IsIdentity() && p.IsOnG2()
 			}
-			re := p.Bytes()
-			if len(b) == 96 {
-				re = p.BytesCompressed()
-			}
-			var t bls12381.G2
-			t.ScalarMult(rm1, &p)
-			t.Add(&t, &p)
-			return true, bytes.Equal(re, b), t.IsIdentity() && p.IsOnG2()
+			return false, false, false
 		}
 		fs = append(fs, family{"bls12381-g2", "bls12381.G2.SetBytes", try, cl})
 		clk := map[string][][]byte{}
